@@ -19,6 +19,7 @@ KEYMAP = {
     'migration-': ['C15'], 'path-': ['C15'],
     'determinism-': ['C20'], 'shift-': ['C20'], 'spurious-': ['C20'], 'timeout-settle': ['C20'],
     'zero-rtt-': ['C17'],
+    'routing-forgotten-': ['C08', 'C09'], 'routing-cid-views-': ['C09', 'C08'],
     'routing-': ['C09'], 'isolation-': ['C09'],
     'flow-': ['C05', 'C06'],
     'panic-in-': ['*'],
